@@ -276,7 +276,8 @@ theorem C03_spec_never_stuck (kind : Kind) (as : List Act) (k : Nat)
     (∃ h, (sp.waiting k).head? = some h ∧ (applyEv sp (.grant h k)).isSome) :=
   spec_never_stuck _ k hw
 
-/-- **A wake-up cannot be lost or stolen** (every interleaving): once the mutex of its key has been handed to a pending acquisition
+/-- **A grant cannot be revoked** (every interleaving; the core model has no wakers — that the *notification* of a stream item is not
+lost is `C11_item_ready_iff_obtainable`): once the mutex of its key has been handed to a pending acquisition
 `w` (`hold`: the tokio mutex names `w` as its owner), no action performed for another handle — a lookup, a scan of the whole map,
 an eviction, a failing `try_lock`, another waiter's cancellation, any guard method, a release on any key — changes `w`'s record or
 takes the ownership away again: it stays `w`'s until `w` itself is polled or dropped. `a.actor ≠ some w ∧ w ∉ a.fresh` says
@@ -315,7 +316,12 @@ interleaving, every grouping `owner` of handles into clients (threads, tasks, on
 ordered acquisition (`Ordered`: whoever sleeps on key `k` owns mutexes of smaller keys only; "one key at a time" is the special case)
 and anybody sleeps, then some key with sleepers is owned by a handle whose client sleeps nowhere. So the set of clients is never
 entirely asleep through the library's doing: that client can go on, and its release hands the mutex to the oldest sleeper (`C03_handoff`),
-who keeps it (`C03_grant_stable`). Eventual progress additionally needs a fair scheduler and clients that do release — not a theorem. -/
+who keeps it (`C03_grant_stable`). Eventual progress additionally needs a fair scheduler and clients that do release — not a theorem.
+Scope: `Ordered` is a hypothesis on the state, for a grouping the reader supplies; no theorem derives it from program texts. It counts
+every ownership the library assigns, also a waiter or stream item that was handed a mutex and not polled since — so the consumer of a
+`lock_all_entries` stream that keeps yielded guards while other items are queued is *not* `Ordered` as one client (items are locked
+in map order, not key order); for streams the corresponding statement is `C11_pending_means_blocked`: the stream itself never
+sleeps, it answers `Pending` exactly when every remaining item is queued behind somebody else. -/
 theorem C03_ordered_no_deadlock (kind : Kind) (as : List Act) (owner : Nat → Nat) (w : Nat) :
     let s := run (State.init kind) as
     Ordered s owner → blockedOn s w →
